@@ -8,8 +8,8 @@ use speclib::report::{finish, panic_site, par_cases, Acc, Ctx, Finish, Tier, Vio
 use serde_json::json as _json;
 use speclib::words::{expr_words, ParenStyle};
 
-const WORDS11: [&str; 11] = ["(", ")", "!", ",", "-a", "-and", "-o", "-or", "-true", "-name x", "-print"];
-const WORDS9: [&str; 9] = ["(", ")", "!", ",", "-a", "-o", "-true", "-name x", "-print"];
+const WORDS11: [&str; 11] = ["(", ")", "!", ",", "-a", "-and", "-o", "-or", "-true", "-name a,b", "-print"];
+const WORDS9: [&str; 9] = ["(", ")", "!", ",", "-a", "-o", "-true", "-name a,b", "-print"];
 
 fn tok(w: &str) -> Tok {
     match w {
@@ -20,7 +20,7 @@ fn tok(w: &str) -> Tok {
         "-a" | "-and" => Tok::And,
         "-o" | "-or" => Tok::Or,
         "-true" => Tok::Prim(Expr::Test(Test::True)),
-        "-name x" => Tok::Prim(Expr::Test(Test::Name("x".into()))),
+        "-name a,b" => Tok::Prim(Expr::Test(Test::Name("a,b".into()))),
         "-print" => Tok::Prim(Expr::Action(Action::Print)),
         other => panic!("C01 alphabet has no word {other:?}"),
     }
@@ -137,7 +137,7 @@ fn self_check(alpha: &[&str], max_len: usize, accepted_by_len: &[u64]) -> Result
         }
     }
     // generative check
-    let leaves = [Expr::Test(Test::True), Expr::Test(Test::Name("x".into())), Expr::Action(Action::Print)];
+    let leaves = [Expr::Test(Test::True), Expr::Test(Test::Name("a,b".into())), Expr::Action(Action::Print)];
     let mut by_leaves: Vec<Vec<Expr>> = vec![vec![], leaves.to_vec()];
     let mut checked = 0u64;
     let max_leaves = 4;
@@ -192,7 +192,7 @@ fn self_check(alpha: &[&str], max_len: usize, accepted_by_len: &[u64]) -> Result
 /// options among the primaries): judged by the text-level reference, for which a leading run of
 /// options is removed and any other option reads as -true.
 fn option_sequences(max_len: usize) -> Acc {
-    const WORDS12: [&str; 12] = ["(", ")", "!", ",", "-a", "-and", "-o", "-or", "-true", "-name x", "-print", "-depth"];
+    const WORDS12: [&str; 12] = ["(", ")", "!", ",", "-a", "-and", "-o", "-or", "-true", "-name a,b", "-print", "-depth"];
     let mut total = Acc::new();
     for len in 1..=max_len {
         let n = 12u64.pow(len as u32);
@@ -249,7 +249,7 @@ fn option_sequences(max_len: usize) -> Acc {
 fn long_sentences() -> Acc {
     let ns: Vec<usize> = (2..=20).chain([31, 32, 33, 63, 64, 65, 127, 128, 129, 255, 256, 257, 258, 259, 300, 400, 511, 512, 513, 600]).collect();
     let joins: [Option<&str>; 6] = [None, Some("-a"), Some("-and"), Some("-o"), Some("-or"), Some(",")];
-    let prims = ["-true", "-print", "-name x"];
+    let prims = ["-true", "-print", "-name a,b"];
     let mut cases: Vec<Vec<&str>> = vec![];
     for &n in &ns {
         for j in joins {
@@ -270,6 +270,37 @@ fn long_sentences() -> Acc {
             }
         }
     }
+    // many parenthesised operands at one level (the count of parentheses grows, the nesting does not)
+    for &n in &[2usize, 3, 31, 32, 33, 63, 64, 65, 66, 100, 127, 128, 129, 200, 255, 256, 257, 300] {
+        for j in [Some("-o"), Some(","), None] {
+            let mut w: Vec<&str> = vec![];
+            for k in 0..n {
+                if k > 0 {
+                    if let Some(j) = j {
+                        w.push(j);
+                    }
+                }
+                w.extend(["(", "-true", ")"]);
+            }
+            if w.iter().map(|x| x.len() + 1).sum::<usize>() <= 4096 {
+                cases.push(w);
+            }
+        }
+        // alternating operators: -o binds looser than juxtaposition, ',' loosest
+        let mut w: Vec<&str> = vec![];
+        for k in 0..n {
+            if k > 0 {
+                w.push(["-o", "-a", ",", "-or"][k % 4]);
+            }
+            if k % 3 == 0 {
+                w.push("!");
+            }
+            w.push("-print");
+        }
+        if w.iter().map(|x| x.len() + 1).sum::<usize>() <= 4096 {
+            cases.push(w);
+        }
+    }
     for k in 1..=64usize {
         let mut w = vec!["!"; k];
         w.push("-true");
@@ -279,7 +310,40 @@ fn long_sentences() -> Acc {
         w.extend(vec![")"; k]);
         cases.push(w);
     }
-    speclib::report::par_items(&cases, |w, acc| check_words(w, acc))
+    let mut acc = speclib::report::par_items(&cases, |w, acc| check_words(w, acc));
+    // nesting beyond 64 levels, on a thread with a large stack (the grammar sets no limit)
+    let deep = std::thread::Builder::new()
+        .stack_size(512 << 20)
+        .spawn(|| {
+            let mut a = Acc::new();
+            for k in [65usize, 66, 100, 127, 128, 129, 130, 160, 200, 256] {
+                let mut w = vec!["("; k];
+                w.extend(["-true", "-o", "-print"]);
+                w.extend(vec![")"; k]);
+                check_words(&w, &mut a);
+                let mut w = vec!["!"; k];
+                w.push("-print");
+                check_words(&w, &mut a);
+                let mut w: Vec<&str> = vec![];
+                for _ in 0..k / 2 {
+                    w.extend(["(", "!"]);
+                }
+                w.push("-true");
+                w.extend(vec![")"; k / 2]);
+                check_words(&w, &mut a);
+            }
+            // shallow sentences must still be accepted afterwards (no state carried between calls)
+            check_words(&["(", "-true", ")"], &mut a);
+            check_words(&["(", "(", "-print", ")", ")"], &mut a);
+            a
+        })
+        .expect("spawn")
+        .join();
+    match deep {
+        Ok(a) => acc = acc.merge(a),
+        Err(_) => acc.violate(Violation::new("C01:panic:deep-nesting", "parsing 65..256 nested parentheses / negations did not return".to_string(), json!({"kind": "words", "words": ["(", "..."]}))),
+    }
+    acc
 }
 
 pub fn run(ctx: &Ctx) -> i32 {
